@@ -516,6 +516,8 @@ def replay_loop(cex, props):
                 info = _replay_cadence(cex, model, props, bad, tmp)
             elif flow == "rng":
                 info = _replay_rng(cex, model, props, bad)
+            elif flow == "resume_file":
+                info = _replay_resume_file(cex, model, props, bad, tmp)
     finally:
         shutil.rmtree(tmp, ignore_errors=True)
     mine = [b for b in bad if any(b.startswith(p) for p in props)]
@@ -590,6 +592,81 @@ def _replay_crash(cex, model, props, bad, tmp, ref):
             compare(ref, res, bad, f"[crash@{c}/file]")
         out.append(c)
     return out
+
+
+_FLOWS = {}
+
+
+def _aspire_world(cex, model, path, fail_at=None, resume=False):
+    """Concrete counterpart of LoopCheck._aspire_run: the real Aspire route."""
+    import aspire.aspire as A
+    from aspire.aspire import Aspire
+
+    w = World(cex, model)
+    w.fail_at = fail_at
+    inner = w.flow()
+
+    class PFlow:
+        xp = np
+
+        def log_prob(self, x):
+            return inner.log_prob(x)
+
+        def sample_and_log_prob(self, n):
+            return inner.sample_and_log_prob(n)
+
+        def save(self, h5_file, path="flow"):
+            g = h5_file.create_group(path)
+            g.attrs["stub"] = "concrete"
+
+        @classmethod
+        def load(cls, h5_file, path="flow"):
+            return _FLOWS["current"]
+
+    old = A.get_flow_wrapper
+    A.get_flow_wrapper = lambda backend="zuko", flow_matching=False: (PFlow, np)
+    World.current = w
+    cfg = cex["cfg"]
+    kw = dict(SCHEDULES[cfg["schedule"]])
+    kw["sampler_kwargs"] = {"n_steps": 1}
+    if cfg.get("n_final"):
+        kw["n_final_samples"] = w.N + 1
+    w.final, w.error, a = None, None, None
+    try:
+        with np.errstate(all="ignore"):
+            if resume:
+                _FLOWS["current"] = PFlow()
+                a = Aspire.resume_from_file(path, log_likelihood=w.log_likelihood, log_prior=w.log_prior)
+                w.final = a.sample_posterior(preconditioning="none", **kw)
+            else:
+                a = Aspire(log_likelihood=w.log_likelihood, log_prior=w.log_prior, dims=w.d, parameters=[f"p{k}" for k in range(w.d)], flow=PFlow(), xp=np)
+                w.final = a.sample_posterior(n_samples=w.N, sampler="smc", checkpoint_path=path, preconditioning="none", **kw)
+    except RuntimeError as e:
+        w.error = e
+    finally:
+        A.get_flow_wrapper = old
+    w.sampler = a.sampler if a is not None else None
+    return w
+
+
+def _replay_resume_file(cex, model, props, bad, tmp):
+    cfg = cex["cfg"]
+    ref = _aspire_world(cex, model, os.path.join(tmp, "ref.h5"))
+    if ref.error is not None or ref.final is None:
+        bad.append(f"C11[resume_constructor]: the reference run failed: {ref.error}")
+        return {}
+    total = ref.ll_calls
+    points = range(1, total + 1) if cfg.get("all_crash_points") else [total]
+    out = []
+    for c in points:
+        path = os.path.join(tmp, f"crash{c}.h5")
+        w = _aspire_world(cex, model, path, fail_at=c)
+        if w.error is None or w.sampler is None or w.sampler.last_checkpoint_bytes is None:
+            continue
+        res = _aspire_world(cex, model, path, resume=True)
+        compare(ref, res, bad, f"[resume_constructor crash@{c}]")
+        out.append(c)
+    return {"betas": [float(b) for b in ref.sampler.history.beta], "crash_points": out}
 
 
 def _replay_cadence(cex, model, props, bad, tmp):
